@@ -37,7 +37,9 @@ META = dict(
                "no facts (entry points x roles driven are listed in the evidence). Real-thread scheduling is "
                "modelled by the facts (RLock mutual exclusion, re-entrancy). Thread.join under _lock_local in "
                "dist.join() and pool.join() under the handler lock wait for threads, not locks: documented "
-               "non-finding. All queue operations are non-blocking (confirmed by reading and counted at run time).",
+               "non-finding. Queue operations: every put/get that could wait is recorded with the locks held; one that "
+               "would really wait (full/empty queue, no timeout) is a failure - the bounded workloads fill the outgoing "
+               "queue to provoke it.",
     rule="one case per distinct recorded fact (non-trivial = the thread already held a lock) plus random small "
          "fact lists for the elimination mirror (non-trivial = some fact survives or falls only in round >= 2)",
     trusted_base=["harness/lockspy.py (recording RLock replacement, role tags set by the driving code, instance->name "
